@@ -27,6 +27,9 @@ def absBip (G : BipG) : AbsBipGraph where
   edges := G.edges.map (fun e => ((e.1 : Int), (e.2 : Int)))
   is_bipartite := true
 
+/-- `B.number_of_edges()` of a `BipartiteGraph` object under construction -/
+def bipNumberOfEdges (G : BipG) : Int := (G.numberOfEdges : Nat)
+
 /-- a `DirectedGraph` object, as seen by the family generators -/
 def absDi (D : DiG) : AbsDiGraph where
   is_dag := D.isDag
@@ -40,6 +43,7 @@ def absDi (D : DiG) : AbsDiGraph where
 /-- a `Graph` object (simple undirected graph), as seen by the family generators -/
 def absGraph (G : SimpleG) : AbsGraph where
   number_of_vertices := G.n
+  order := G.n
   number_of_edges := G.m
   vertices := ⟨1, (G.n : Int) + 1⟩
   neighbors := fun u => (G.neighbors u).map (·.map Int.ofNat)
